@@ -442,6 +442,9 @@ def oracle(spec, obs):
         keep = ~np.isnan(xin)
         if not np.array_equal(xin[keep], xout[keep]):
             fails.append(({"broken": "imputer contract", "column": c}, "_interpolate_col changed a cell that was not missing"))
+        if not keep.any() and not np.isnan(xout).all():
+            fails.append(({"broken": "imputer contract", "column": c, "kind": "empty column"},
+                          "_interpolate_col proposed values for an empty column"))
     return fails
 
 
@@ -663,7 +666,7 @@ def main():
         if os.path.exists(corpus):
             for c in json.load(open(corpus)):
                 items.append(("spec", c["spec"]))
-        nfr = int(os.environ.get("VERIF_N") or run.n(300, 6000))
+        nfr = int(os.environ.get("VERIF_N") or run.n(240, 4000))
         classes = ["short"] * 25 + ["small"] * 46 + ["medium"] * 23 + ["large"] * 5 + ["huge"] * 1
         for k in range(nfr):
             sc = classes[k % 100] if run.quick() else run.rng.choice(classes)
